@@ -26,7 +26,7 @@ NO = 13
 RULE = ("seeded cases: real-space mask up to 6x6 (<= 30 pixels), anisotropic pixel scales, origin, 1..12 (u,v) baselines with the zero "
         "baseline and a duplicate, magnitudes log-uniform 1e2..1e6 wavelengths; a case = (mask, scales, origin, baselines); distinct by "
         "their hash; non-trivial = >= 2 unmasked pixels and >= 2 distinct non-zero baselines")
-BOUNDS = {"quick": "120 operators x (2 preload settings, 4 matrix kinds, 2 storage forms) + 60 interferometer inversions",
+BOUNDS = {"quick": "600 operators x (2 preload settings, 4 matrix kinds, 2 storage forms) + 300 interferometer inversions",
           "thorough": "40000 operators + 20000 inversions"}
 EXHAUSTIVE = {"quick": False, "thorough": False}
 ASSUMPTIONS = ["pylops is absent: a stand-in module with an empty LinearOperator base class is injected before import (allowed by the property)",
@@ -39,9 +39,9 @@ RT = 1e-9
 
 
 def plan(tier, seed):
-    n = 120 if tier == "quick" else 40000
-    ni = 60 if tier == "quick" else 20000
-    step = 6 if tier == "quick" else 200
+    n = 600 if tier == "quick" else 40000
+    ni = 300 if tier == "quick" else 20000
+    step = 20 if tier == "quick" else 200
     return ([{"kind": "op", "start": s, "stop": min(n, s + step), "w": step} for s in range(0, n, step)] +
             [{"kind": "inv", "start": s, "stop": min(ni, s + step), "w": step} for s in range(0, ni, step)])
 
